@@ -536,6 +536,13 @@ Definition upd_ptr (l : list uptr) (p : uptr) : list uptr :=
 
 Definition all_ptrs (us : uschema) : list uptr := flat_map ut_own (u_types us).
 
+(* pointer names are numbers; the harness renders every 4th one (3, 7, ...) as an identifier that
+   starts with two underscores.  For such names (and `id`) the column in the source table is named
+   after the pointer, not after its id (Gen_Layout.ptr_col_by_name): a rename from / to such a name
+   is NOT free.  The model makes no statement about those renames (finding C05-F4 of the check). *)
+Definition dunder (p : N) : bool := N.eqb (N.modulo p 4) 3.
+Definition named_column (p : N) : bool := ptr_col_by_name (dunder p) false.
+
 Inductive uev :=
 | UCreateType (n : N) (abstract : bool) (bases : list N)
 | UDropType (n : N)
@@ -552,7 +559,8 @@ Inductive uev :=
 | UCreateLP (n p q : N) (comp : bool)
 | UDropLP (n p q : N)
 | URenameLP (n p q q' : N)
-| USetLPComp (n p q : N) (b : bool).
+| USetLPComp (n p q : N) (b : bool)
+| USetType (n p : N) (tg : N).      (* SET TYPE <str | T tg> USING (...): same storage, new target *)
 
 Inductive ures :=
 | UOk (us : uschema) (cms : list fcmd)
@@ -683,6 +691,7 @@ Definition ustep (us : uschema) (e : uev) : ures :=
       | Some ty =>
           (* RENAME TO the same name is an accepted no-op, also on an inherited pointer *)
           if N.eqb p p' then (if mem_id p (vis_names us (ut_id ty)) then UOk us [] else URejected) else
+          if named_column p || named_column p' then UOutOfScope else
           match find_ptr (ut_own ty) p with
           | None => URejected
           | Some pt =>
@@ -825,6 +834,28 @@ Definition ustep (us : uschema) (e : uev) : ures :=
                                      (up_lps pt))))))
                       (map (fun d => FSetLPComp d (up_id pt) (lp_id l) b) (cone us (ut_id ty)))
               end
+          end
+      end
+  | USetType n p tg =>
+      (* PointerMetaCommand._alter_pointer_type: data is converted in place (through a temporary
+         column that is added and dropped within the command -- not modelled; the harness checks
+         that it is gone); no table or column is created or dropped *)
+      match find_type us n with
+      | None => URejected
+      | Some ty =>
+          match find_ptr (ut_own ty) p with
+          | None => if mem_id p (vis_names us (ut_id ty)) then UOutOfScope else URejected
+          | Some pt =>
+              if up_comp pt then UOutOfScope
+              else if up_link pt then
+                match find_type us tg with
+                | None => URejected
+                | Some tty =>
+                    UOk (upd_type us (upd_own ty (upd_ptr (ut_own ty)
+                           (mkPtr (up_id pt) (up_name pt) (up_link pt) (ut_id tty) (up_multi pt)
+                                  (up_req pt) (up_comp pt) (up_lps pt))))) []
+                end
+              else UOk us []
           end
       end
   end.
